@@ -296,8 +296,8 @@ def gen_op(rng, st):
             l = 'moverow %d %d' % (row_index(rng, nrows, 0) if rng.random() < 0.2 else (rng.randrange(nrows) if nrows else 0),
                                    rng.randrange(nrows) if nrows and rng.random() < 0.85 else rint(rng, -1, 4))
         elif q < 0.79:
-            names = [cat + n for n in rng.sample(NAMES + ['q', 'r2'], rng.randint(1, 2))]
-            if rng.random() < 0.08:
+            names = [cat + n for n in rng.sample(NAMES + ['q', 'r2'], rng.choice([0, 1, 1, 1, 2, 2, 3]))]
+            if names and rng.random() < 0.08:
                 names[-1] = rng.choice(['bad', '', 'x_'])
             pos = rng.choice([-1, 0, width or 1, rng.randint(0, (width or 1)), rint(rng, -2, 6)])
             l = 'addcols %s %s %d' % (lst(names), hx(rval(rng)), pos)
